@@ -113,10 +113,13 @@ fn run_history(set: usize, hist: &[usize]) -> Res {
             4 => {
                 // a request on the same writer that is aborted by a hard error half-way through
                 // (an unreadable application region), after which the caller repairs the configuration
+                // the aborted request also asks for a (readable) region of its own that no later request has
+                reused.app_memory.insert(0, minidump_writer::app_memory::AppMemory { ptr: b.pattern_addrs[0] as usize + 2000, length: 777 });
                 reused.app_memory.push(minidump_writer::app_memory::AppMemory { ptr: 0x10, length: 64 });
                 let mut sink = std::io::Cursor::new(Vec::new());
                 let r = dump_with(&mut reused, &mut sink);
                 reused.app_memory.pop();
+                reused.app_memory.remove(0);
                 dumps += 1;
                 if matches!(r, DumpResult::Ok(_)) {
                     return Res { case, fails, dumps, outcome: 9, machinery: Some("the dump with an unreadable app region did not fail".into()) };
